@@ -47,12 +47,14 @@ type c09Load struct {
 	out        string
 	val        int
 	superseded bool
-	installed  bool // installation step finished (or skipped)
-	writeInCb  bool // a write call to the key was blocked inside its own callback when this load registered
+	installed  bool     // installation step finished (or skipped)
+	writeInCb  bool     // a write call to the key was blocked inside its own callback when this load registered
+	igate      *c09Gate // the load.beforeInstall gate this load is (or was) parked at
 }
 
 type c09Gate struct {
 	id   string
+	key  int
 	ch   chan struct{}
 	open bool
 }
@@ -69,6 +71,12 @@ type c09World struct {
 	blocking  bool
 	known     int
 	startedAt map[int]int64
+	// a write landed while a Get of this key was parked between its lookup miss and its registration: the
+	// statement allows the load to be installed (no write since the load started) or dropped (the key changed
+	// since the miss), so both outcomes are accepted for the next load of that key
+	missWindowWrite map[int]bool
+	keyOfG          map[int64]int
+	loadOfG         map[int64]*c09Load
 }
 
 func genC09(t *rapid.T) c09Case {
@@ -115,6 +123,7 @@ func (l c09Loader) do(kind string, k int) (int, error) {
 	// The stalled write call overlaps this load and publishes after the load registered: by the property the write wins.
 	ld.superseded = ld.writeInCb
 	w.loads = append(w.loads, ld)
+	w.loadOfG[vh.Goid()] = ld
 	w.mu.Unlock()
 	out := <-ld.gate
 	w.mu.Lock()
@@ -178,7 +187,7 @@ func (e c09Expiry) ExpireAfterRead(en otter.Entry[int, int]) time.Duration { ret
 
 func runC09(c c09Case) outcome {
 	var o outcome
-	w := &c09World{model: map[int]int{}, windows: map[string]int{}}
+	w := &c09World{model: map[int]int{}, windows: map[string]int{}, missWindowWrite: map[int]bool{}, keyOfG: map[int64]int{}, loadOfG: map[int64]*c09Load{}}
 	var verr error
 	fail := func(f string, a ...any) {
 		if verr == nil {
@@ -206,8 +215,17 @@ func runC09(c c09Case) outcome {
 			ld := c09Loader{w}
 			verifhook.Set(func(id string) {
 				if (id == "get.afterMiss" && c.GateMiss) || (id == "load.beforeInstall" && c.GateInstall) {
-					g := &c09Gate{id: id, ch: make(chan struct{})}
+					g := &c09Gate{id: id, ch: make(chan struct{}), key: -1}
 					w.mu.Lock()
+					if k, ok := w.keyOfG[vh.Goid()]; ok {
+						g.key = k
+					}
+					if id == "load.beforeInstall" {
+						if l := w.loadOfG[vh.Goid()]; l != nil {
+							l.igate = g
+							g.key = l.key
+						}
+					}
 					w.gates = append(w.gates, g)
 					w.mu.Unlock()
 					<-g.ch
@@ -258,24 +276,24 @@ func runC09(c c09Case) outcome {
 					}
 				}
 				for _, g := range pendingGates() {
-					if g.id == "get.afterMiss" {
+					if g.id == "get.afterMiss" && (g.key == k || g.key < 0) {
 						w.windows["write-between-miss-and-registration"]++
+						w.missWindowWrite[k] = true
 					}
 				}
 			}
 			settle := func() {
 				// loads whose installation step has certainly run: released and not parked at the install gate
 				w.mu.Lock()
-				parkedInstall := 0
-				for _, g := range w.gates {
-					if !g.open && g.id == "load.beforeInstall" {
-						parkedInstall++
-					}
-				}
 				for _, l := range w.loads {
-					if l.released && !l.installed && parkedInstall == 0 {
+					if l.released && !l.installed && (!c.GateInstall || (l.igate != nil && l.igate.open)) {
 						l.installed = true
 						if !l.superseded {
+							for _, g := range w.gates {
+								if !g.open && g.id == "get.afterMiss" && (g.key == l.key || g.key < 0) {
+									w.missWindowWrite[l.key] = true // the key changes while that Get sits between miss and registration
+								}
+							}
 							switch l.out {
 							case "val":
 								w.model[l.key] = l.val
@@ -308,6 +326,16 @@ func runC09(c c09Case) outcome {
 					}
 					g, ok := cache.GetEntryQuietly(k)
 					want, has := w.model[k]
+					if (ok != has || (ok && g.Value != want)) && w.missWindowWrite[k] {
+						// either the load or the write may have won (see missWindowWrite): resync
+						if ok {
+							w.model[k] = g.Value
+						} else {
+							delete(w.model, k)
+						}
+						delete(w.missWindowWrite, k)
+						continue
+					}
 					if ok != has || (ok && g.Value != want) {
 						// known finding: the load registered while a write call to the key was blocked inside its own callback
 						for _, l := range w.loads {
@@ -341,9 +369,19 @@ func runC09(c c09Case) outcome {
 				}
 				switch a.Op {
 				case "get":
-					spawn(func() { _, _ = cache.Get(context.Background(), a.K, ld) })
+					spawn(func() {
+						w.mu.Lock()
+						w.keyOfG[vh.Goid()] = a.K
+						w.mu.Unlock()
+						_, _ = cache.Get(context.Background(), a.K, ld)
+					})
 				case "bulkget":
-					spawn(func() { _, _ = cache.BulkGet(context.Background(), []int{a.K}, ld) })
+					spawn(func() {
+						w.mu.Lock()
+						w.keyOfG[vh.Goid()] = a.K
+						w.mu.Unlock()
+						_, _ = cache.BulkGet(context.Background(), []int{a.K}, ld)
+					})
 				case "refresh":
 					spawn(func() {
 						if ch := cache.Refresh(context.Background(), a.K, ld); ch != nil {
@@ -467,6 +505,14 @@ func runC09(c c09Case) outcome {
 				ch := w.blockCh
 				w.mu.Unlock()
 				if stalled && anyReleasedNotInstalled && ch != nil {
+					// the stalled write publishes now: Gets parked after their miss see the key change before they register
+					w.mu.Lock()
+					for _, g := range w.gates {
+						if !g.open && g.id == "get.afterMiss" && (g.key == w.blockKey || g.key < 0) {
+							w.missWindowWrite[w.blockKey] = true
+						}
+					}
+					w.mu.Unlock()
 					close(ch)
 				}
 				synctest.Wait()
@@ -483,6 +529,16 @@ func runC09(c c09Case) outcome {
 				if len(pl) == 0 && len(pg) == 0 && !blocking {
 					break
 				}
+				for _, g := range pg {
+					if g.id == "get.afterMiss" {
+						// during the drain a Get parked after its miss resumes while other loads are being installed
+						for k := 0; k < c.Keys; k++ {
+							if g.key == k || g.key < 0 {
+								w.missWindowWrite[k] = true
+							}
+						}
+					}
+				}
 				for _, l := range pl {
 					l.released = true
 					l.gate <- "val"
@@ -492,6 +548,9 @@ func runC09(c c09Case) outcome {
 					close(g.ch)
 				}
 				if blocking && ch != nil {
+					w.mu.Lock()
+					w.missWindowWrite[w.blockKey] = true
+					w.mu.Unlock()
 					close(ch)
 					w.mu.Lock()
 					w.blockCh = nil
